@@ -24,7 +24,7 @@ Static clauses decided (necessary conditions of C01; the SQL/Python equivalence 
 """
 # C01 is the umbrella ("the rows Pony returns equal the result of evaluating the same expression in Python"): the clauses decided for the
 # narrower query properties are necessary conditions of C01 too and are evaluated here as well (their findings are reported under C01)
-INCLUDES = ('C03', 'C04', 'C24', 'C25', 'C29')
+INCLUDES = ('C03', 'C04', 'C05', 'C24', 'C25', 'C29')       # C05: an answer served from a cache filed under too coarse a key is not the Python answer
 NOT_DECIDED = "SQL/Python equivalence of each translated operator, DISTINCT inference, row decoding: need execution against the engines"
 
 ST = 'pony.orm.sqltranslation'
